@@ -117,6 +117,14 @@ func opKind(e event) string {
 	return "default"
 }
 
+// poolOp names the operation kind behind a rewards-pool movement.
+func poolOp(e event) string {
+	if e.Op == opDonateRewards || e.Op == opWOne || e.Op == opWAll || e.Op == opWOver {
+		return e.Op
+	}
+	return "begin-block"
+}
+
 func poolClass(p *big.Int, s *wspec) string {
 	var tot int64
 	for _, x := range s.Powers {
@@ -401,10 +409,10 @@ func (m *model) step(b blockInfo, prev, cur *view) {
 			}
 		}
 		if get(cur.cumWd, a).Cmp(get(m.withdrawn, a)) != 0 {
-			m.violate("withdrawn-counter", "op="+opKind(b.Ev), fmt.Sprintf("h=%d: withdrawn counter of %s is %s, accepted withdrawals sum to %s", h, a, get(cur.cumWd, a), get(m.withdrawn, a)))
+			m.violate("withdrawn-counter", "op=withdraw", fmt.Sprintf("h=%d: withdrawn counter of %s is %s, accepted withdrawals sum to %s", h, a, get(cur.cumWd, a), get(m.withdrawn, a)))
 		}
 		if get(cur.cumWd, a).Cmp(mat) > 0 {
-			m.violate("withdrawn>matured", "op="+opKind(b.Ev), fmt.Sprintf("h=%d: %s has withdrawn %s in total, matured in total %s", h, a, get(cur.cumWd, a), mat))
+			m.violate("withdrawn>matured", "op=withdraw", fmt.Sprintf("h=%d: %s has withdrawn %s in total, matured in total %s", h, a, get(cur.cumWd, a), mat))
 		}
 	}
 	wantPool := new(big.Int).Set(prev.rewardPool)
@@ -415,7 +423,7 @@ func (m *model) step(b blockInfo, prev, cur *view) {
 		wantPool.Add(wantPool, olt(9))
 	}
 	if cur.rewardPool.Cmp(wantPool) != 0 {
-		m.violate("rewards-pool-accounting", "op="+opKind(b.Ev), fmt.Sprintf("h=%d: rewards pool is %s, expected %s (previous balance, accepted withdrawals and donations)", h, cur.rewardPool, wantPool))
+		m.violate("rewards-pool-accounting", "op="+poolOp(b.Ev), fmt.Sprintf("h=%d: rewards pool is %s, expected %s (previous balance, accepted withdrawals and donations)", h, cur.rewardPool, wantPool))
 	}
 	if len(cur.negative) > 0 {
 		m.violate("negative-reward-record", "op=begin-block|regime="+m.regimeName(), fmt.Sprintf("h=%d: negative amounts stored under %v", h, cur.negative))
